@@ -1,4 +1,5 @@
 import ClaripyProofs.Lemmas.Solver.ModelCache
+import ClaripyProofs.Lemmas.Solver.GetSolverTracked
 /-!
 The invariant of one frontend of the caching class `Solver` (ModelCacheMixin + SatCacheMixin + ConstraintExpansionMixin +
 SimplifyHelperMixin on top of what SolverCacheless has), relative to the constraints `U` its user has added:
@@ -46,12 +47,14 @@ theorem WStep.of_fe {s s' : St} (hobjs : s'.objs = s.objs) (hre : s'.reuse = s.r
 
 /-- the part of the invariant the cacheless class has as well -/
 structure BInv (R : Con → Prop) (G : St → Prop) (U : List Con) (s : St) : Prop where
-  core : CoreInv s
+  core : CoreInvG s
   equiv : ∀ a, holdsAll s.fe.constraints a = holdsAll U a
   dinv : DInv R U s
   /-- the frontend knows the variables of its constraints (`_model_hook` keeps those of a model) -/
   vars : ∀ c ∈ s.fe.constraints, ∀ v ∈ c.vars, v ∈ s.fe.variables
   ghost : ∃ s0, G s0 ∧ WStep s0 s
+  /-- tracked frontends (`track=True`): the Z3 object referred to asserts conversions of registered constraints only -/
+  areg : s.fe.track = true → ∀ r, s.fe.solver = some r → AssertedReg R s r
 
 /-- SatCacheMixin: the cached satisfiability is right -/
 def SCInv (U : List Con) (fe : Frontend) : Prop :=
@@ -74,7 +77,7 @@ theorem BInv.transfer {U : List Con} {s s' : St} (h : BInv R G U s) (hobjs : s'.
     (hcons : s'.fe.constraints = s.fe.constraints) (htoadd : s'.fe.toAdd = s.fe.toAdd) (hsol : s'.fe.solver = s.fe.solver)
     (htrack : s'.fe.track = s.fe.track) (hhash : s'.fe.hashes = s.fe.hashes) (hwo : s'.fe.woAnnot = s.fe.woAnnot)
     (hvar : s'.fe.variables = s.fe.variables) (hfin : s'.fe.finalized = s.fe.finalized) : BInv R G U s' := by
-  refine ⟨⟨?_, ?_, ?_, ?_⟩, ?_, ⟨?_, ?_⟩, ?_, ?_⟩
+  refine ⟨⟨?_, ?_, ?_⟩, ?_, ⟨?_, ?_⟩, ?_, ?_, ?_⟩
   · rw [hcons, htoadd]; exact h.core.toAdd_sub
   · intro r hr
     rw [hsol] at hr
@@ -82,18 +85,24 @@ theorem BInv.transfer {U : List Con} {s s' : St} (h : BInv R G U s) (hobjs : s'.
     have ho : objAt s' r = objAt s r := by simp only [objAt, hobjs]
     exact ⟨by rw [hobjs]; exact hlt, by rw [ho]; exact hf, fun a => by rw [ho, htoadd, hcons]; exact hsem a⟩
   · rw [hre]; exact h.core.noReuse
-  · rw [htrack]; exact h.core.untracked
   · rw [hcons]; exact h.equiv
   · rw [hcons]; exact h.dinv.consR
   · rw [hhash, hwo]; exact h.dinv.seen
   · rw [hcons, hvar]; exact h.vars
   · obtain ⟨s0, hg, hw⟩ := h.ghost
     exact ⟨s0, hg, hw.trans (WStep.of_fe hobjs hre hsol hfin)⟩
+  · intro ht r hr
+    rw [htrack] at ht
+    rw [hsol] at hr
+    have ho : objAt s' r = objAt s r := by simp only [objAt, hobjs]
+    intro z hz
+    rw [ho] at hz
+    exact h.areg ht r hr z hz
 
 /-- the invariant depends on the user's constraints only through their models -/
 theorem BInv.congr {U U' : List Con} {s : St} (h : BInv R G U s) (heq : ∀ a, holdsAll U' a = holdsAll U a) : BInv R G U' s :=
   ⟨h.core, fun a => by rw [heq a]; exact h.equiv a,
-   ⟨h.dinv.consR, fun c hc hi a ha => h.dinv.seen c hc hi a (by rw [← heq a]; exact ha)⟩, h.vars, h.ghost⟩
+   ⟨h.dinv.consR, fun c hc hi a ha => h.dinv.seen c hc hi a (by rw [← heq a]; exact ha)⟩, h.vars, h.ghost, h.areg⟩
 
 theorem SCInv.congr {U U' : List Con} {fe : Frontend} (h : SCInv U fe) (heq : ∀ a, Models U' a ↔ Models U a) : SCInv U' fe := by
   have hs : Satisfiable U' ↔ Satisfiable U := ⟨fun ⟨a, ha⟩ => ⟨a, (heq a).mp ha⟩, fun ⟨a, ha⟩ => ⟨a, (heq a).mpr ha⟩⟩
@@ -193,7 +202,7 @@ theorem AddRel.unsat_of_false {U : List Con} {s s' : St} {cs new : List Con} (hR
 /-- the cacheless part of the invariant after `_add` -/
 theorem BInv.add {U : List Con} {s s' : St} {cs new : List Con} (hR : Reg R E) (h : BInv R G U s) (hcs : ∀ c ∈ cs, R c)
     (ha : AddRel s s' cs new) : BInv R G (U ++ new) s' := by
-  refine ⟨⟨?_, ?_, ?_, ?_⟩, ?_, ⟨?_, ?_⟩, ?_, ?_⟩
+  refine ⟨⟨?_, ?_, ?_⟩, ?_, ⟨?_, ?_⟩, ?_, ?_, ?_⟩
   · intro a hca
     rw [ha.cons, holdsAll_append] at hca
     rw [ha.toAdd, holdsAll_append]
@@ -212,7 +221,6 @@ theorem BInv.add {U : List Con} {s s' : St} {cs new : List Con} (hR : Reg R E) (
       have := (hsem a).mpr h1
       exact ⟨this.1, this.2, h2⟩
   · rw [ha.reuse]; exact h.core.noReuse
-  · rw [ha.track]; exact h.core.untracked
   · intro a; rw [ha.cons, holdsAll_append, holdsAll_append, h.equiv a]
   · intro c hc
     rw [ha.cons] at hc
@@ -234,6 +242,13 @@ theorem BInv.add {U : List Con} {s s' : St} {cs new : List Con} (hR : Reg R E) (
     · exact Or.inr ⟨c, hc, hv⟩
   · obtain ⟨s0, hg, hw⟩ := h.ghost
     exact ⟨s0, hg, hw.trans (WStep.of_fe ha.objs ha.reuse ha.solver ha.fin)⟩
+  · intro ht r hr
+    rw [ha.track] at ht
+    rw [ha.solver] at hr
+    have ho : objAt s' r = objAt s r := objAt_of_objs_eq ha.objs r
+    intro z hz
+    rw [ho] at hz
+    exact h.areg ht r hr z hz
 
 /-! ### specification shapes -/
 
